@@ -242,8 +242,58 @@ def environments_law(ctx):
         except Exception as e:
             ctx.fail(["environments", "raises", errname(e)], "raised %s: %s on %s" % (errname(e), str(e)[:100], case), case)
 
+def shortcuts_law(ctx):
+    """the Environments shortcuts promise what the filters promise: take / reservoir (strict or not) / slice / riffle / where through the shortcut keep exactly the
+    interactions the filter's own promise gives (prefix or nothing; min(n,N) distinct members or nothing; the slice; a permutation; all or nothing)"""
+    import coba
+    from .c04 import read_all
+    rng = ctx.rng
+    for _ in range(ctx.n(60, 600)):
+        N = rng.choice([0, 1, 3, 6, 9]); n = rng.choice([0, 1, 2, 4, 6, 8, 12]); strict = rng.random() < 0.6
+        how = rng.choice(["take", "reservoir", "reservoir", "slice", "riffle", "where"])
+        case = dict(what="Environments shortcut", shortcut=how, N=N, n=n, strict=strict); ctx.count("shortcut:" + how, repr(case), N >= 2)
+        try:
+            base = coba.Environments.from_linear_synthetic(N, n_actions=3, n_context_features=2, n_action_features=0, seed=7)
+            ref = read_all(base[0])
+            if how == "take": got = read_all(base.take(n, strict)[0]); ok = got == (ref[:n] if (len(ref) >= n or not strict) else [])
+            elif how == "reservoir":
+                seeds = rng.choice([3, [3], [3, 4]]); envs = base.reservoir(n, seeds, strict); ok = len(envs) == (len(seeds) if isinstance(seeds, list) else 1)
+                for e in envs:
+                    got = read_all(e)
+                    want_n = (n if len(ref) >= n else (0 if strict else len(ref)))
+                    ok = ok and len(got) == want_n and all(g in ref for g in got) and len({json.dumps(g, sort_keys=True, default=str) for g in got}) == len(got)
+            elif how == "slice": a, b, st = rng.choice([None, 0, 2]), rng.choice([None, 4, 30]), rng.choice([1, 2]); case["slice"] = [a, b, st]; got = read_all(base.slice(a, b, st)[0]); ok = got == ref[a:b:st]
+            elif how == "riffle": got = read_all(base.riffle(rng.choice([1, 3]), 2)[0]); ok = sorted(map(lambda g: json.dumps(g, sort_keys=True, default=str), got)) == sorted(map(lambda g: json.dumps(g, sort_keys=True, default=str), ref))
+            else:
+                lo, hi = rng.choice([(None, None), (2, None), (None, 4), (3, 8)]); case["n_interactions"] = [lo, hi]
+                got = read_all(base.where(n_interactions=(lo, hi))[0]); ok = got == (ref if (lo is None or len(ref) >= lo) and (hi is None or len(ref) <= hi) else [])
+            if not ok: ctx.fail(["environments", "shortcut-breaks-promise", how], "Environments.%s on %d interactions gave %d that are not what the filter promises on %s" % (how, len(ref), len(got), case), case)
+        except Exception as e:
+            ctx.fail(["environments", "raises", errname(e), how], "raised %s: %s on %s" % (errname(e), str(e)[:100], case), case)
+
+def cache_pickle_law(ctx):
+    """Cache is an identity also for a copy pickled while a read is in progress (an environment shipped to a worker after a peek): the copy yields the whole sequence"""
+    import pickle
+    import coba.pipes.filters as P
+    import coba.environments.filters as EF
+    rng = ctx.rng
+    for _ in range(ctx.n(40, 400)):
+        N = rng.choice([1, 3, 26, 30, 60]); ns = rng.choice([1, 5, 25]); k = rng.choice([0, 1, ns, ns + 1, N]); env_level = rng.random() < 0.4
+        src = [{"id": x} for x in range(N)] if env_level else list(range(N))
+        case = dict(what="a Cache pickled after reading k items", N=N, n_slice=ns, k=k, environment_cache=env_level); ctx.count("cache-pickled", repr(case), N >= 2)
+        try:
+            flt = EF.Cache(ns) if env_level else P.Cache(ns)
+            it = iter(flt.filter(iter(src))); head = list(islice(it, k))
+            cp = pickle.loads(pickle.dumps(flt)); del it
+            got = list(cp.filter(iter(src))); mine = list(flt.filter(iter(src)))
+            if got != src or mine != src: ctx.fail(["cache", "pickled-copy-not-identity"], "a Cache pickled after %d of %d items: the copy yields %d items, the original %d" % (k, N, len(got), len(mine)), case)
+        except Exception as e:
+            ctx.fail(["cache", "raises", errname(e), "pickled"], "raised %s: %s on %s" % (errname(e), str(e)[:100], case), case)
+
 def run(ctx):
     environments_law(ctx)
+    shortcuts_law(ctx)
+    cache_pickle_law(ctx)
     check(ctx, corpus(ctx.rng), "corpus")
     cases = []
     while len(cases) < ctx.n(1500, 25000):
